@@ -20,6 +20,14 @@ round 3: `nsi_betweenness_split` (n.s.i. shortest-path betweenness, at the level
          remaining n.s.i. methods in the oracle; histories on live objects (cached values of
          the original must not change, weights re-assigned, cross measures first); Geo/Climate
          networks; caller arrays in several dtypes / layouts; hub and rescaled weights.
+round 5: `nsi_eigenvector_centrality_split` (Perron domination / uniqueness over any ordered
+         field; the vector the implementation returns goes through the exact model: `eig` /
+         `eigsplit` requests -- sparse product, exact residual, normalisation fixed point,
+         positivity, connectivity); `arenas_systems_regular` (maximum principle; the Arenas
+         theorems need no regularity hypothesis); the per-component wrapper of both random-walk
+         betweennesses in the model (`comp` / `compsplit` requests on every DISCONNECTED
+         undirected graph with 3..7(8) nodes: component lists, six argument patterns, copy-back)
+         with `nsi_newman_betweenness_wrapper_split` / `nsi_arenas_betweenness_wrapper_split`.
 """
 import contextlib
 import io
@@ -448,6 +456,27 @@ def run(ctx):
                                                  np.array(net.adjacency).tolist()), n))
             ctx.count("random-walk-correspondence")
             rw_splits = 0
+        # round 5: the per-component wrapper of the random-walk betweennesses on DISCONNECTED
+        # networks (Model/NsiComp.lean): component lists, sub-networks, copy-back, exact
+        do_comp = (not directed) and (not all_reach) and 3 <= n <= (7 if quick else 8)
+        if do_comp:
+            reqs.append(request("comp", net, Wroot, g0, g1))
+            meta.append(("comp", gi, None, None, (base_impl, net.node_weights.copy(), scaled,
+                                                   components_of(net)), n))
+            ctx.count("per-component-correspondence")
+            comp_splits = 0
+        # round 5: nsi_eigenvector_centrality -- the vector the implementation returns goes
+        # through the exact model (Model/NsiEig.lean): matrix-vector product, eigen-residual,
+        # normalisation, positivity and connectivity (the hypotheses of
+        # `nsi_eigenvector_centrality_split`)
+        ec0 = finite_vec(base_impl.get("nsi_eigenvector_centrality@oracle"), n)
+        do_eig = (not directed) and ec0 is not None
+        if do_eig:
+            reqs.append(request("eig", net, Wroot, g0, g1, extra=f"{enc_rats(ec0)} "))
+            meta.append(("eig", gi, None, None, (ec0, adj_times_w(net, ec0)), n))
+            eig_base = len(reqs) - 1
+            eig_splits = 0
+            ctx.count("eigenvector-correspondence")
         for v in nodes:
             for p in props:
                 nontriv = n >= 3 and A.sum() > 0
@@ -500,6 +529,29 @@ def run(ctx):
                                         extra=f"{RW_TERMS} {v} {enc_rat(p)} "))
                     meta.append(("rwsplit", gi, v, p, len(reqs) - 2, n + 1))
                     ctx.count("random-walk-correspondence-on-split")
+                if do_comp and comp_splits < 2:
+                    comp_splits += 1
+                    reqs.append(request("comp", sp, sWroot, sg0, sg1))
+                    meta.append(("comp", gi, v, p, (sp_impl, sp.node_weights.copy(), scaled,
+                                                     components_of(sp)), n + 1))
+                    reqs.append(request("compsplit", net, Wroot, g0, g1,
+                                        extra=f"{v} {enc_rat(p)} "))
+                    meta.append(("compsplit", gi, v, p, len(reqs) - 2, n + 1))
+                    ctx.count("per-component-correspondence-on-split")
+                if do_eig and eig_splits < (1 if quick else 2):
+                    # (a) the model's own split with the pulled-back vector: every output is the
+                    # exact pull-back of the output on the original (`eig_pullback`);
+                    # (b) the vector the implementation returns for its split copy
+                    eig_splits += 1
+                    reqs.append(request("eigsplit", net, Wroot, g0, g1,
+                                        extra=f"{v} {enc_rat(p)} {enc_rats(ec0)} "))
+                    meta.append(("eigsplit", gi, v, p, eig_base, n + 1))
+                    ec1 = finite_vec(sp_impl.get("nsi_eigenvector_centrality@oracle"), n + 1)
+                    if ec1 is not None:
+                        reqs.append(request("eig", sp, sWroot, sg0, sg1,
+                                            extra=f"{enc_rats(ec1)} "))
+                        meta.append(("eig", gi, v, p, (ec1, adj_times_w(sp, ec1)), n + 1))
+                    ctx.count("eigenvector-correspondence-on-split")
                 if do_betw:
                     nsplit += 1
                     for ist, (SS, TT) in enumerate(ST):
@@ -612,10 +664,40 @@ def run(ctx):
     model = common.driver(ctx.pid, reqs)
     bad_split, bad_eval, bad_betw, nvals, nbetw = [], [], [], 0, 0
     bad_rw, nrw = [], 0
+    bad_eig, neig, eig_stats = [], 0, {"resid": 0.0}
+    bad_comp, ncomp = [], 0
     for ans, (kind, gi, v, p, impl, n) in zip(model, meta):
         if kind == "rw":
             nrw += 1
             bad_rw += check_rw(ctx, ans, impl, n, f"graph#{gi} split={v},{p}")
+            continue
+        if kind == "comp":
+            ncomp += 1
+            bad_comp += check_comp(ctx, ans, impl, n, f"graph#{gi} split={v},{p}")
+            continue
+        if kind == "compsplit":
+            ncomp += 1
+            if ans != model[impl]:
+                bad_comp.append(f"graph#{gi} split={v},{p}: per-component model on its own split "
+                                f"and on splitted_copy() disagree: {ans[:120]} / "
+                                f"{model[impl][:120]}")
+            continue
+        if kind == "eig":
+            neig += 1
+            bad_eig += check_eig(ans, impl, n, f"graph#{gi} split={v},{p}", eig_stats)
+            continue
+        if kind == "eigsplit":
+            neig += 1
+            b, a = parse_betw(model[impl]), parse_betw(ans)
+            for key in ("ax", "resid", "norm"):
+                bl = b.get(key, "").split(",")
+                if len(bl) != n - 1 or a.get(key) != ",".join(bl + [bl[v]]):
+                    bad_eig.append(f"graph#{gi} split={v},{p}: `{key}` on the model's split with "
+                                   f"the pulled-back vector is not the pull-back: "
+                                   f"{a.get(key, '')[:100]} / {b.get(key, '')[:100]}")
+            if (a.get("pos"), a.get("conn")) != (b.get("pos"), b.get("conn")):
+                bad_eig.append(f"graph#{gi} split={v},{p}: positivity / connectivity flags of "
+                               f"the model's split differ from the original")
             continue
         if kind == "rwsplit":
             nrw += 1
@@ -678,8 +760,115 @@ def run(ctx):
                    f"split copies and the model's own split; hypotheses SolvesL/SolvesR/"
                    f"ArenasSolves of the theorems hold exactly for the computed inverses "
                    f"({nrw} requests)", "correspondence", not bad_rw, "\n".join(bad_rw[:6]))
+    ctx.obligation(f"correspondence: nsi_eigenvector_centrality -- the vector the implementation "
+                   f"returns (network and split copy) is positive, fixed by the modelled "
+                   f"normalisation (exact), an eigenvector of the exact model of sp_Aplus * "
+                   f"sp_diag_w up to 1e-7 (largest relative residual seen "
+                   f"{eig_stats['resid']:.1e}), on a network the model's BFS finds connected; "
+                   f"model matrix-vector product == the library's sparse product; on the model's "
+                   f"own split every output is the exact pull-back ({neig} requests)",
+                   "correspondence", not bad_eig, "\n".join(bad_eig[:6]))
+    ctx.obligation(f"correspondence: per-component wrapper of nsi_newman_betweenness (both "
+                   f"add_local_ends) and nsi_arenas_betweenness (4 argument patterns) on "
+                   f"DISCONNECTED networks -- model of connected_components / subgraph / "
+                   f"node_weights[nodes] / copy-back with the exact kernels == implementation, on "
+                   f"graphs, split copies and the model's own split; component lists == igraph's; "
+                   f"the loop stores at every node its own component's value ({ncomp} requests)",
+                   "correspondence", not bad_comp, "\n".join(bad_comp[:6]))
     ctx.extra["values_compared"] = nvals
     extras(ctx)
+
+
+def components_of(net):
+    """igraph's component lists as the wrappers iterate over them"""
+    return ";".join(",".join(str(int(x)) for x in comp) or "-"
+                    for comp in net.graph.connected_components())
+
+
+def check_comp(ctx, ans, impl_pack, n, where):
+    """one `comp` answer of the driver against the implementation on a disconnected network"""
+    impl, w, scaled, comps = impl_pack
+    mb = parse_betw(ans)
+    bad = []
+    if mb.get("comps") != comps:
+        bad.append(f"{where}: components model={mb.get('comps')} igraph={comps}")
+    if mb.get("pernode") != "1":
+        bad.append(f"{where}: the component loop does not store every node's own component value")
+    pairs = [("newman", "nsi_newman_betweenness_comp@oracle"),
+             ("newman_ends", "nsi_newman_betweenness_ends@oracle"),
+             ("arenas", "nsi_arenas_betweenness_comp@oracle"),
+             ("arenas_incl", "nsi_arenas_betweenness_incl_comp@oracle"),
+             ("arenas_twin", "nsi_arenas_betweenness_twin_comp@oracle"),
+             ("arenas_incl_twin", "nsi_arenas_betweenness_incl_twin_comp@oracle")]
+    for key, name in pairs:
+        iv = impl.get(name)
+        if iv is None:
+            continue
+        mvs = mb.get(key, "singular")
+        if isinstance(iv, tuple):
+            if mvs != "singular":
+                bad.append(f"{where} {name}: implementation raises {iv[1]}, model={mvs[:80]}")
+            continue
+        mv = None if mvs == "singular" else ([] if mvs == "-" else
+                                             [Fraction(x) for x in mvs.split(",")])
+        if mv is None or len(mv) != len(iv):
+            bad.append(f"{where} {name}: model={mvs[:80]} impl={iv}")
+            continue
+        fl = vec_floor(iv, [float(x) for x in mv], scaled, name)
+        if not all(close(a, float(b), 1e-8, fl) for a, b in zip(iv, mv)):
+            bad.append(f"{where} {name}: impl={iv} model={[float(x) for x in mv]}")
+        ctx.count("per-component-values-compared", len(iv))
+    return bad
+
+
+def finite_vec(vals, n):
+    """the implementation's vector as exact rationals, or None (not computed / raised / not finite)"""
+    if not isinstance(vals, list) or len(vals) != n:
+        return None
+    if not all(x == x and abs(x) != float("inf") for x in vals):
+        return None
+    return [Fraction(x) for x in vals]
+
+
+def adj_times_w(net, x):
+    """(sp_Aplus * sp_diag_w) @ x as the library builds the matrices"""
+    M = net.sp_Aplus() * net.sp_diag_w()
+    return np.asarray(M @ np.array([float(t) for t in x])).reshape(-1).tolist()
+
+
+EIG_TOL = 1e-7     # relative eigen-residual accepted for the ARPACK vector (tol=1e-8 in the code)
+
+
+def check_eig(ans, impl_pack, n, where, stats):
+    """one `eig` answer of the driver against the vector the implementation returned"""
+    x, ax_impl = impl_pack
+    mb = parse_betw(ans)
+    bad = []
+
+    def rats(key):
+        v = mb.get(key, "-")
+        return [] if v == "-" else [Fraction(t) for t in v.split(",")]
+    if mb.get("pos") != "1":
+        bad.append(f"{where}: nsi_eigenvector_centrality of a connected network is not positive: "
+                   f"{[float(t) for t in x]}")
+    if mb.get("conn") != "1":
+        bad.append(f"{where}: igraph finds all pairs connected, the model's BFS does not")
+    if mb.get("norm") != enc_rats(x):
+        bad.append(f"{where}: the returned vector is not a fixed point of `ec *= sign(ec[0]); "
+                   f"ec / ec.max()` (model: {mb.get('norm', '')[:120]})")
+    ax = rats("ax")
+    scale = max([abs(float(t)) for t in ax] + [1e-300])
+    if len(ax) != n or not all(abs(float(a) - b) <= 1e-12 * scale for a, b in zip(ax, ax_impl)):
+        bad.append(f"{where}: model (A+ Dw) x = {[float(t) for t in ax]} but sp_Aplus * sp_diag_w "
+                   f"@ x = {ax_impl}")
+    resid = rats("resid")
+    xs = max(float(t) for t in x)
+    rel = max([abs(float(r)) for r in resid] + [0.0]) / (scale * max(xs, 1e-300))
+    stats["resid"] = max(stats["resid"], rel)
+    if rel > EIG_TOL:
+        bad.append(f"{where}: the returned vector is not an eigenvector of the n.s.i. adjacency "
+                   f"matrix: relative residual {rel:.3e}")
+    return bad
 
 
 RW_TERMS = 60      # terms of the exponential series of nsi_spreading sent by the model
